@@ -77,6 +77,12 @@ func NewMemStore(name string) *MemStore {
 
 func (m *MemStore) String() string { return "mem://" + m.Name }
 
+// Sum8 is a short content digest.
+func Sum8(b []byte) []byte {
+	h := sha256.Sum256(b)
+	return h[:8]
+}
+
 func sum(b []byte) string {
 	h := sha256.Sum256(b)
 	return hex.EncodeToString(h[:8])
